@@ -11,7 +11,7 @@ replay on the implementation in corpus/C06/): `C06_full_false_capacity`, `C06_fu
 Proved: `C06_partial` (= the full statement under `NoEviction` and `Lifecycle`), `C06_code_view` (only `NoEviction`, for
 the code's own notion of a block cache's context), `memo_sound` (the invariant), `fork_independent`.
 -/
-import Verif.Lemmas.StateCacheSys
+import Verif.Lemmas.StateCacheWitness
 namespace Verif.Props.C06
 open Verif.SC
 
@@ -98,21 +98,6 @@ theorem commit_elsewhere {T : Tree K B V} (x : Blk K B V) {k : K} {b : B} {e : E
 
 /-! ### the full statement is false: capacity witness (finding C06-capacity-eviction) -/
 
-/-- keys, blocks, values and handles are numbers: key 0; blocks A=10, C=11, D=12, S=13 (root hash 0); values 1 (A's), 2 (C's), 3 (S's) -/
-def witnessCap : List (Op Nat Nat Nat Nat) :=
-  [.blk 0 10 0, .bset 0 0 1, .bcommit 0,        -- A writes k
-   .blk 1 11 10, .bset 1 0 2, .bcommit 1,       -- C child of A writes k
-   .blk 2 12 11, .bcommit 2,                    -- D child of C
-   .sget 0 10,                                  -- a lookup at A refreshes A's entry
-   .blk 3 13 10, .bset 3 0 3, .bcommit 3]       -- sibling S of C writes k: with capacity 2, C's entry is evicted
-
-theorem witnessCap_hit : ((((Sys.new 2 8 : Sys Nat Nat Nat Nat).run witnessCap).1).step (.sget 0 12)).2 = .hit 1 := by
-  decide
-
-theorem witnessCap_oracle :
-    Chain ((Sys.new 2 8 : Sys Nat Nat Nat Nat).treeRun [] witnessCap) 0 12 (.val 2) :=
-  oracleN_sound (n := 3) (by decide)
-
 theorem C06_full_false_capacity : ¬ C06_full := by
   intro h
   have hall := h 2 8 (witnessCap ++ [.sget 0 12])
@@ -126,14 +111,6 @@ example : Lifecycle (Sys.new 2 8 : Sys Nat Nat Nat Nat) [] (witnessCap ++ [.sget
   decide
 
 /-! ### the full statement is false: life-cycle witness (finding C06-blockcache-after-commit) -/
-
-def witnessLife : List (Op Nat Nat Nat Nat) :=
-  [.blk 0 10 0, .bset 0 0 1, .bcommit 0,        -- A writes k = 1
-   .blk 1 11 10, .bset 1 0 2, .bcommit 1]       -- B child of A writes k = 2 and commits
-
-theorem witnessLife_hit :
-    ((((Sys.new 200 2000 : Sys Nat Nat Nat Nat).run witnessLife).1).step (.bget 1 0)).2 = .hit 1 := by
-  decide
 
 theorem C06_full_false_lifecycle : ¬ C06_full := by
   intro h
